@@ -52,6 +52,8 @@ def run(ctx):
                                      "trace.ndjson": "\n".join(json.dumps(r) for r in x["trace"]) + "\n"},
                               signature="C38:conf:%s:%s" % (red, vlib.canon_hash(sub[j])), detail=json.dumps(K.prog_brief(sub[j])))
             badp = {x["key"] for x in rej}
+            if len(rej) >= 8:
+                continue      # too many non-conforming executions: the remaining ones were not examined, nothing to compare
             for (j, red), r in res.items():
                 nexec += len(r["traces"])
                 if (j, red) in badp:
